@@ -22,7 +22,7 @@ RULE = ("condition kinds {PINN, Mean, DeepRitz, custom error/reduce, AdaptiveWei
         "evaluations per configuration; distinct by configuration")
 ASSUMPTIONS = ["outputs passed to the residual are compared with an independent re-evaluation of the model on the recorded points",
                "derivatives taken inside the residual are compared with derivatives of that independent re-evaluation"]
-BOUNDS = {"quick": {"calls": 2}, "thorough": {"calls": 3}}
+BOUNDS = {"quick": {"calls": 2}, "thorough": {"calls": 5}}
 ITEM_LIMIT = {"quick": 900, "thorough": 3600}
 
 DIM = {"x": 2, "t": 1, "p": 1}
